@@ -375,6 +375,17 @@ class Body:
                                      lambda x: [p for _, p in self.pred.get(x, []) if p in nodes])
         return self._pdom
 
+    def reach_from(self, a):
+        """blocks reachable from block a by one or more edges"""
+        seen, stack = set(), [y for _, y in self.succ.get(a, [])]
+        while stack:
+            x = stack.pop()
+            if x in seen or x == EXIT:
+                continue
+            seen.add(x)
+            stack.extend(y for _, y in self.succ.get(x, []))
+        return seen
+
     def dominates(self, a, b):
         """block a dominates block b"""
         d = self.dom
